@@ -89,6 +89,13 @@ def _init(root):
 def analyse(job):
     rel, new_src, props = job
     out = {}
+    if props == ['__equiv__']:
+        try:
+            compile(new_src, rel, 'exec')
+        except SyntaxError as e:
+            return {'_syntax': str(e)}
+        repo = Repo(_REPO_ROOT, overlay={rel: new_src})
+        return {'_equiv': repo.equiv_info.get('equivalent', []), '_neq': repo.equiv_info.get('not_equivalent', [])}
     try:
         compile(new_src, rel, 'exec')
     except SyntaxError as e:
@@ -126,6 +133,7 @@ def main():
     ap.add_argument('--max-per-func', type=int, default=40)
     ap.add_argument('--jobs', type=int, default=16)
     ap.add_argument('--all-props', action='store_true', help='run all 20 checks on every mutant')
+    ap.add_argument('--equiv-audit', action='store_true', help='only ask sa.equiv whether the mutant is declared equivalent to the reference (must never happen)')
     ap.add_argument('--out', default=os.path.join(HERE, 'tools', 'out', 'mutation_sweep.json'))
     a = ap.parse_args()
     repo = Repo(a.repo)
@@ -171,6 +179,8 @@ def main():
             ms = rnd.sample(ms, a.max_per_func)
         run_props = sorted(targets[q] | file_props.get(fi.module.relpath, set())) if not a.all_props else \
             [f'C{i:02d}' for i in range(1, 21)]
+        if a.equiv_audit:
+            run_props = ['__equiv__']
         for node, rep, desc in ms:
             new = src.replace(node, rep)
             jobs.append((fi.module.relpath, new, run_props))
@@ -187,6 +197,12 @@ def main():
                 print(f"  {i + 1}/{len(jobs)}  {time.time() - t0:.0f}s", flush=True)
     os.makedirs(os.path.dirname(a.out), exist_ok=True)
     json.dump(res, open(a.out, 'w'), indent=0)
+    if a.equiv_audit:
+        bad = [m for m in res if m['result'].get('_equiv')]
+        for m in bad:
+            print(f"DECLARED EQUIVALENT: {m['func']} line {m['line']}: {m['desc']}")
+        print(f"{len(res)} mutants, {len(bad)} declared equivalent to the reference")
+        return
     # summary
     per = {}
     for m in res:
